@@ -274,6 +274,9 @@ def _judge(ctx, oa, b, cfg, tr, bi, site, fams):
         r = _slice_from_enumerate_index(b, cfg, tr, t)
         if r:
             return 'discharged', 'slice-from(enumerate-index+1)', r
+        r = _const_index_under_len_guard(b, cfg, tr, bi, t)
+        if r:
+            return 'discharged', 'index(constant below guarded length)', r
         idx = tr.origin(t['args'][1])
         if idx['o'] == 'const' and b.file.endswith('to_svg.rs'):
             return 'table', ('svg', 'Vec-index', 'corners-or-items-constant-index'), ''
@@ -602,6 +605,29 @@ def _overflow(ctx, oa, b, cfg, tr, bi, t):
         if 'inner_steps' in flds:
             return 'table', ('stepping', sigk, 'loop_counter*inner_steps'), ''
     return 'violation', '%s/%s' % (b.fn_name, sigk), 'integer overflow check that is neither discharged nor tabled'
+
+
+def _const_index_under_len_guard(b, cfg, tr, bi, t):
+    """`v[k]` with a constant k, reached only where comparisons of v.len() (same, never resized, v) that dominate the site
+    establish len > k."""
+    from . import C17 as _c17
+    if len(t['args']) != 2:
+        return None
+    io = tr.origin(t['args'][1])
+    k = const_value(io['c']) if io['o'] == 'const' else None
+    if not isinstance(k, int) or isinstance(k, bool):
+        return None
+    cont = container_root(b, tr, t['args'][0])
+    if cont is None or _resized(b, tr, cont):
+        return None
+    lens = [tt['dest']['l'] for _bj, tt in b.calls() if call_matches(tt, 'Vec::<T, A>::len', '<impl [T]>::len') and tt['args']
+            and container_root(b, tr, tt['args'][0]) == cont]
+    if not lens:
+        return None
+    lo, hi, used = _c17.guard_interval(b, cfg, tr, lens, bi)
+    if lo > k:
+        return 'index %d < len: the length of _%d is at least %d here (guards %s)' % (k, cont, lo, [(u[1], u[2]) for u in used])
+    return None
 
 
 def _slice_from_enumerate_index(b, cfg, tr, t):
